@@ -39,6 +39,17 @@ CHECKS = {
          "flags), every prefix closed, order irrelevant; verified closure decider used as oracle on every generated "
          "expression/workflow graph and direct call history of /repo",
          "4 C09", "Coq proof by induction over insertion histories + correspondence + verified closure oracle"),
+ "C04": ("expression trees are compiled to the engine program of their construction sequence; Language.parse + "
+         "Expr.fix of /repo is compared with the faithful engine model on the complete typed tree; every application "
+         "node of every accepted expression is validated by the checker proved sound w.r.t. Sub (all groundings from a "
+         "finite pool), operator leaves are matched against their declared signature, annotations against Sub; the "
+         "unconditional theorem is partial as for C03",
+         "4 C04", "Coq-verified per-node checker + engine model correspondence through the real parser"),
+ "C16": ("histories of parses, failed parses, validate, printing, instantiation, graph/query construction on one "
+         "Language, then a probe compared with a fresh identical language and with the engine model run in an empty "
+         "store; on the model: allocation monotonic, bindings write-once (C16_fresh), history/frame theorem in "
+         "props/C16.v when present",
+         "4 C16", "Coq proof on the engine model (frame/freshness) + history differential testing"),
  "C18": ("schedules proved to only permute the pending constraints; independence of the outcome is refuted for the "
          "error kind (C18_refuted, known finding) and otherwise searched exhaustively per case (all permutations at "
          "every re-check point, imposed on /repo through the guarded hook) with model/implementation agreement per "
